@@ -135,8 +135,9 @@ func solveOne(file string, timeoutS int, both bool) (win solveOut, all []solveOu
 func worst(all []solveOut) solveOut {
 	// no definitive answer: report timeout if any, else unknown
 	var w solveOut
+	rank := map[string]int{"timeout": 3, "unknown": 2, "cancelled": 1, "error": 0}
 	for _, r := range all {
-		if w.result == "" || r.result == "timeout" {
+		if w.result == "" || rank[r.result] > rank[w.result] {
 			w = r
 		}
 	}
